@@ -17,7 +17,7 @@ GUARD = 'TLX_VERIF'
 CLANG = ['clang++-14', '-std=c++17', '-I' + REPO, '-I' + HARNESS, '-D' + GUARD, '-O1', '-ffp-contract=off', '-fno-vectorize',
          '-fno-slp-vectorize', '-fno-unroll-loops', '-S', '-emit-llvm', '-Wno-everything']
 GXX = ['g++', '-std=c++17', '-I' + REPO, '-I' + HARNESS, '-D' + GUARD, '-O1', '-g', '-fsanitize=address,undefined',
-       '-fno-sanitize-recover=undefined', '-w', '-pthread']
+       '-fno-sanitize-recover=undefined', '-fno-lifetime-dse', '-w', '-pthread']
 CBMC_BASE = ['--no-malloc-may-fail', '--unwinding-assertions', '--drop-unused-functions', '--no-signed-overflow-check',
              '--no-undefined-shift-check']
 NOCHECK = ['--no-assertions', '--no-pointer-check', '--no-bounds-check', '--no-div-by-zero-check',
@@ -82,6 +82,8 @@ def load_cache():
 
 
 def save_cache(key, val):
+    if REPO != '/repo' or os.environ.get('VERIF_NO_CACHE_WRITE'):
+        return   # runs against scratch worktrees (seeded changes) never touch the committed bound cache
     with _cache_lock:
         c = load_cache()
         c[key] = val
@@ -235,6 +237,8 @@ class Runner:
                 rec['error_tail'] = '\n'.join(errl[:12]) + '\n...\n' + out[-600:]
                 return None, out
             uw = [r for r in res if is_unwind(r) and r['status'] == 'FAILURE']
+            if os.environ.get('VERIF_DEBUG'):
+                log('    [dbg %s%s] tuned=%s wall=%.1fs rss=%dMB steps=%s vars=%s uw=%s' % (q.name, keysuffix, tuned, wall, rss // 1024, st.get('steps'), st.get('variables'), [(unwind_key(r), bounds.get(unwind_key(r), default)) for r in res if is_unwind(r) and r['status'] == 'FAILURE']))
             if uw:
                 rec['tune_rounds'] += 1
                 for r in uw:
